@@ -1,40 +1,50 @@
 package simrt
 
-import (
-	"math/rand"
-	"sync"
-)
+import "sync"
 
 // Tape is the single source of run-time choices. In generate mode the values
-// come from a PRNG and are recorded; in replay mode they come from the recorded
-// list (values are reduced modulo n so that an edited tape is always usable; an
-// exhausted tape yields 0, the "simplest" choice).
+// come from a PRNG (splitmix64, implemented here so that no instrumented
+// library state is shared between tasks) and are recorded; in replay mode they
+// come from the recorded list (values are reduced modulo n so that an edited
+// tape is always usable; an exhausted tape yields 0, the "simplest" choice).
 type Tape struct {
 	mu         sync.Mutex
-	rng        *rand.Rand
+	state      uint64
 	replay     []int
 	pos        int
 	Rec        []int
 	Labels     []string // parallel to Rec when KeepLabels
 	KeepLabels bool
 	Replaying  bool
+	NoRec      bool // do not record (race-detector runs)
 }
 
 func NewTape(seed int64) *Tape {
-	return &Tape{rng: rand.New(rand.NewSource(seed))}
+	return &Tape{state: uint64(seed)*0x9E3779B97F4A7C15 + 0x1234567}
 }
 
 func ReplayTape(values []int) *Tape {
 	return &Tape{replay: values, Replaying: true}
 }
 
+//go:norace
+func (t *Tape) next() uint64 {
+	t.state += 0x9E3779B97F4A7C15
+	z := t.state
+	z = (z ^ (z >> 30)) * 0xBF58476D1CE4E5B9
+	z = (z ^ (z >> 27)) * 0x94D049BB133111EB
+	return z ^ (z >> 31)
+}
+
 // Intn returns a value in [0,n). n <= 1 consumes nothing and returns 0.
+//
+//go:norace
 func (t *Tape) Intn(n int, label string) int {
 	if n <= 1 {
 		return 0
 	}
+	raceDisable()
 	t.mu.Lock()
-	defer t.mu.Unlock()
 	var v int
 	if t.Replaying {
 		if t.pos < len(t.replay) {
@@ -45,12 +55,16 @@ func (t *Tape) Intn(n int, label string) int {
 		}
 		t.pos++
 	} else {
-		v = t.rng.Intn(n)
+		v = int(t.next() % uint64(n))
 	}
-	t.Rec = append(t.Rec, v)
-	if t.KeepLabels {
-		t.Labels = append(t.Labels, label)
+	if !t.NoRec {
+		t.Rec = append(t.Rec, v)
+		if t.KeepLabels {
+			t.Labels = append(t.Labels, label)
+		}
 	}
+	t.mu.Unlock()
+	raceEnable()
 	return v
 }
 
